@@ -123,12 +123,22 @@ class EventLog:
 _ORIG_ALL_SUBCLASSES = None
 
 
+def _subclasses_of(klass):
+    out = []
+    for sub in type.__subclasses__(klass):
+        if sub not in out:
+            out.append(sub)
+        for deeper in _subclasses_of(sub):
+            if deeper not in out:
+                out.append(deeper)
+    return out
+
+
 def validator_classes():
     import statham.schema.validation as V
 
-    orig = _ORIG_ALL_SUBCLASSES or V._all_subclasses
     return sorted(
-        orig(V.Validator), key=lambda c: (c.__module__, c.__qualname__)
+        _subclasses_of(V.Validator), key=lambda c: (c.__module__, c.__qualname__)
     )
 
 
@@ -143,6 +153,10 @@ def install_validator_order(perm):
     global _ORIG_ALL_SUBCLASSES
     import statham.schema.validation as V
 
+    if not hasattr(V, "_all_subclasses"):
+        # the seam is gone (the library no longer discovers validators this
+        # way): nothing to control; oracles do not depend on it
+        return [c.__name__ for c in validator_classes()]
     if _ORIG_ALL_SUBCLASSES is None:
         _ORIG_ALL_SUBCLASSES = V._all_subclasses
     orig = _ORIG_ALL_SUBCLASSES
